@@ -599,6 +599,30 @@ func gen() ([]byte, error) {
 			})
 		}
 	}
+	// pkg/plugin/server/manager.go NewProxy: plugins get the content as it is (their answer may replace it)
+	pluginFact := "NewProxyPluginCallNotFound"
+	{
+		f, err := parser.ParseFile(fset, filepath.Join(tx.Repo, "pkg", "plugin", "server", "manager.go"), nil, 0)
+		if err != nil {
+			return nil, err
+		}
+		for _, d := range f.Decls {
+			fd, ok := d.(*ast.FuncDecl)
+			if !ok || fd.Body == nil || fd.Name.Name != "NewProxy" {
+				continue
+			}
+			ast.Inspect(fd.Body, func(n ast.Node) bool {
+				if c, ok := n.(*ast.CallExpr); ok && selName(c.Fun) == "Handle" && len(c.Args) == 3 {
+					if show(c.Args[2]) == "*content" {
+						pluginFact = "PluginGetsContentUnaltered"
+					} else {
+						pluginFact = "PluginGetsOtherContent: " + show(c.Args[2])
+					}
+				}
+				return true
+			})
+		}
+	}
 	var runBlocks [][]string
 	{
 		f, err := parser.ParseFile(fset, filepath.Join(tx.Repo, "server", "proxy", "http.go"), nil, 0)
@@ -756,6 +780,6 @@ func gen() ([]byte, error) {
 		}
 		b.WriteString(tx.CoqString(t))
 	}
-	b.WriteString("].\n\nDefinition http_group_endpoint_facts : list string := [" + tx.CoqString(endpointFacts[0]) + "; " + tx.CoqString(endpointFacts[1]) + "].\n")
+	b.WriteString("].\n\nDefinition http_group_endpoint_facts : list string := [" + tx.CoqString(endpointFacts[0]) + "; " + tx.CoqString(endpointFacts[1]) + "; " + tx.CoqString(pluginFact) + "].\n")
 	return b.Bytes(), nil
 }
